@@ -26,7 +26,7 @@ Part H  histories: for every hierarchy with n <= 2 (n = 3 in thorough; <= 2 base
         search to depth 2 cross-checks the canonicalisation.
 
 Measured (16 workers; CPU seconds because the box was shared): quick 63 192 cases / 1.10 M reads,
-~310 core-s (~20 s wall on 16 idle cores); thorough ~487 000 cases / ~13 M reads, ~4 800 core-s (~5 min).
+~310 core-s (~20 s wall on 16 idle cores); thorough 486 937 cases / 13.0 M reads, ~5 000 core-s (~5-6 min).
 Failure identities are "<part>/<oracle clause>/<n or attribute>"; the smallest failing hierarchy is kept.
 
 Oracle (only what the statement fixes)
